@@ -1,5 +1,5 @@
 /* C49 — Parmap (src/xbt/parmap.hpp, instantiation simgrid::xbt::Parmap<simgrid::kernel::actor::ActorImpl*> of
- * src/kernel/context/ContextSwapped.cpp): next(), work(), apply().
+ * src/kernel/context/ContextSwapped.cpp): next(), work(), apply(), worker_main().
  * Property: apply() runs the function on every element of the vector exactly once, whatever the number of workers.
  *
  * CBMC contracts have no threads. Every contract below speaks about the execution of ONE thread (the caller); the other
@@ -13,7 +13,12 @@
  * per ticket, in ticket order, only tickets < length, never an index >= length), it leaves work() only after drawing a
  * ticket >= length, hence (DISP_WF) every index < length has then been handed out exactly once, to it or to another
  * thread running the same work(); apply() publishes fun/data/counter = 0 BEFORE master_signal, works, then master_wait.
- * With no other thread (g_solo) every index is processed exactly once by the caller.
+ * With no other thread (g_solo) every index is processed exactly once by the caller. worker_main(): a worker thread
+ * runs work() exactly once between worker_wait(k) and worker_signal(), k = 1, 2, ..., and leaves only when destroying.
+ * Composition (argued here, NOT machine-checked for several threads): tickets are handed out 0, 1, 2, ... once each
+ * (assumption on fetch_add); a thread stops only after a ticket >= length, so when any thread has left work() every
+ * ticket < length has been drawn by some thread, and that thread calls fun on it exactly once before it signals; the
+ * barrier (assumption) lets apply() return only after every worker has signalled => each element exactly once.
  * NOT proved: real interleavings, memory ordering, the futex / posix / busy-wait barriers (assumed callees).
  *
  * Positions of the vector are told apart by distinct element values (data[k] == &g_actor[k]); the units never look at
@@ -151,7 +156,7 @@ __CPROVER_ensures(vf_exc == 0)
 #define W_SOLO_MINE_K(k) (!((k) >= g_c0 && (k) < g_data.n) || g_cnt[k] == 1)
 void Parmap__work(struct Parmap* self)
     /* clang-format off */
-__CPROVER_requires(self == &g_pm && WF_PM && vf_exc == 0)
+__CPROVER_requires(self == &g_pm && WF_PM && vf_exc == 0) /*@ work_pre_fun_and_data_published */
 __CPROVER_requires(DISP_WF(g_pm.common_index)) /*@ work_pre_counter_consistent_with_round */
 __CPROVER_requires(FRESH_ME && g_c0 == g_pm.common_index) /*@ work_pre_fresh_round_of_this_thread */
 __CPROVER_assigns(g_pm.common_index, g_nt, g_last, __CPROVER_object_whole(g_mine), __CPROVER_object_whole(g_other),
